@@ -279,6 +279,10 @@ func TestProp(t *testing.T) {
 	rapid.Check(t, func(t *rapid.T) {
 		c := gen1(t)
 		if err := h.Safely(func() error { return check(c) }); err != nil {
+			if h.IsTimeoutPanic(err) {
+				h.Discard("timeout")
+				return
+			}
 			red := c
 			if f, ok := err.(*failure); ok {
 				red = f.red
